@@ -15,7 +15,7 @@ import (
 func init() {
 	register(&Def{
 		ID: "C19",
-		Explanation: "Structural necessary conditions of 'binding is faithful and a pure function of its inputs': (pure) no function reachable (CHA) from bindnode.Wrap / Prototype / Unwrap writes a package-level variable outside initialisation (no state is left behind by a binding call); (verify) every normal return of Wrap and Prototype passes verifyCompatibility or one of the two inference functions; (overflow) every reflect.Value.SetInt / SetUint in bindnode is behind the no-overflow edge of the matching OverflowInt / OverflowUint test on the same destination and operand; (unwrap) Unwrap returns the address of the node's own value, not of a copy. " +
+		Explanation: "Structural necessary conditions of 'binding is faithful and a pure function of its inputs': (pure) no function reachable (CHA) from bindnode.Wrap / Prototype / Unwrap writes a package-level variable outside initialisation (no state is left behind by a binding call); (verify) every normal return of Wrap and Prototype passes verifyCompatibility or one of the two inference functions; (overflow) every reflect.Value.SetInt / SetUint in bindnode is behind the no-overflow edge of the matching OverflowInt / OverflowUint test on the same destination and operand; (unwrap) Unwrap returns the address of the node's own value, not of a copy.  Shallow copies of package-level structs with reference fields count as the package variable when written through." +
 			"Faithfulness of the reflection walk and marshal/unmarshal round trips are value-level and not decided.",
 		NotCovered: []string{"faithfulness of the reflection walk over arbitrary Go values", "Marshal/Unmarshal round trip", "SetFloat into float32 (inherently lossy)", "repeated field types inside one inferred schema (observed: struct{X B; Y B} still panics with duplicate type name)"},
 		Trusted:    []string{"go/ssa, go/types, CHA call graph", "package reflect"},
@@ -237,6 +237,24 @@ func runC19(c *core.Ctx) {
 					}
 				}
 			}
+			// ... and the comparisons that are not branch conditions themselves (a named `wide := k == Uint64 || k == Uint`)
+			core.Instrs(fn, func(in ssa.Instruction) {
+				bo, ok := in.(*ssa.BinOp)
+				if !ok || bo.Op != token.EQL {
+					return
+				}
+				x, y := bo.X, bo.Y
+				if core.ConstVal(x) != nil {
+					x, y = y, x
+				}
+				nt := namedOfType(x.Type())
+				if nt == nil || nt.Obj().Pkg() == nil || nt.Obj().Pkg().Path() != "reflect" || nt.Obj().Name() != "Kind" {
+					return
+				}
+				if k, ok := core.ConstInt(y); ok {
+					kinds[k] = true
+				}
+			})
 			nfound++
 			const kUint, kUint64 = 7, 11 // reflect.Uint, reflect.Uint64
 			c.Check(kinds[kUint] && kinds[kUint64], core.FuncKey(fn)+"#unsigned-kinds", p.Pos(allocs[0].Pos()), "reflect.Uint and reflect.Uint64 both get the unsigned node", "the unsigned node is chosen for some 64-bit unsigned Go kinds only: a Go uint (or uint64) field holding a value above MaxInt64 - which the assembler accepts - is presented as a plain int node whose AsInt fails, so the value that was unmarshalled cannot be marshalled again")
